@@ -192,7 +192,9 @@ def _serve_fileobj(fileobj, content_type, content_length, debug=False):
 
     # HTTP/1.0 didn't have Range/Accept-Ranges headers, or the 206 code
     request = cherrypy.serving.request
-    if request.protocol >= (1, 1):
+    # Byte ranges need the entity length; serve_fileobj cannot tell it
+    # for objects without a file descriptor, so Range is not offered there.
+    if request.protocol >= (1, 1) and content_length is not None:
         response.headers['Accept-Ranges'] = 'bytes'
         r = httputil.get_ranges(request.headers.get('Range'), content_length)
         if r == []:
